@@ -67,8 +67,23 @@ def sleepers_scenario(sh: Shard, seed, idx, regime):
                 if r.random() < 0.3:
                     await asyncio.sleep(r.choice([0, 0.01, 0.2]))
 
+        async def churn(tasks):
+            """some sleepers are cancelled in the middle of a sleep and new ones start afterwards
+            (a facade being torn down while the ping/tidy loops keep sleeping)"""
+            k = n
+            while not stop["v"]:
+                await asyncio.sleep(r.choice([0.3, 1.5, 4.0]))
+                live = [t for t in tasks if not t.done()]
+                if len(live) > 1 and r.random() < 0.6:
+                    r.choice(live).cancel()
+                    sh.count("sleepers_cancelled_mid_sleep")
+                    await asyncio.sleep(r.choice([0.0, 0.05, 0.5]))
+                    tasks.append(asyncio.ensure_future(sleeper(k)))
+                    k += 1
+
         async def main():
             tasks = [asyncio.ensure_future(sleeper(i)) for i in range(n)]
+            churner = asyncio.ensure_future(churn(tasks)) if idx % 2 else None
             await asyncio.sleep(0.2)
             t_prev = w.now
             base = w.now
@@ -87,6 +102,8 @@ def sleepers_scenario(sh: Shard, seed, idx, regime):
                 check_table(sh, active, "set_config_mode", {"scenario": f"{seed}:{idx}", "switch_at": round(t - base, 3)})
             await asyncio.sleep(r.choice([1, 10, 130]))
             stop["v"] = True
+            if churner is not None:
+                churner.cancel()
             for t in tasks:
                 t.cancel()
             await asyncio.gather(*tasks, return_exceptions=True)
@@ -196,6 +213,8 @@ def facade_scenario(sh: Shard, seed, idx, regime):
             sh.inconc("scenario hang")
         except Watchdog as e:
             sh.inconc(f"watchdog {e}")
+        except asyncio.TimeoutError:
+            sh.inconc("the facade's first update did not complete within 200 virtual seconds on a healthy network")
         except Exception as e:
             d = describe_exc(e)
             if d["where"] == "repo":
@@ -220,6 +239,7 @@ def main(tier, seed):
     run.absorb(run_shards("checks.c17", "shard", jobs, timeout=3000))
     run.extra["table_members_checked"] = None
     run.need(run.counters.get("wakes_by_switch", 0) > 200 and run.counters.get("wakes_by_timeout", 0) > 200, "too few wakes by switch / by timeout")
+    run.need(run.counters.get("sleepers_cancelled_mid_sleep", 0) > 20, "no sleeper was cancelled in the middle of a sleep")
     run.need(run.counters.get("unobserved_changes_between_facades", 0) > 10, "facade rebuild after unobserved changes not exercised")
     run.need(len(run.sets.get("on_off_combinations", set())) >= 6, "too few on/off combinations of pumps and blowers")
     run.need({"True", "False"} <= run.sets.get("facade_first_update_expected", set()), "first facade update never expected both active and idle")
